@@ -280,6 +280,54 @@ pub fn run(tier: Tier) -> Outcome {
             }
         }
     }
+    // (A1) the same instructions inside a flash-loan bracket of the acting account ([start_flashloan, X, end_flashloan],
+    // one transaction): a bracket defers the health check, not the bank's operational state
+    for g in &gs {
+        let (Some(u), Kind::User { .. }) = (g.subject, g.kind) else { continue };
+        if g.banks.is_empty() || g.role != Role::Authority(u) {
+            continue;
+        }
+        let s0 = (g.prep)(&e);
+        let sg = golden::role_key(&e, g.role);
+        let acct = act::cur_account(&e.w, &s0, u);
+        let wrap = |s: &Store, variant: usize| -> Tx {
+            let inner = (g.make)(&e, s, sg);
+            let include = if variant == 0 { None } else { Some(e.w.banks[g.banks[0]].key) };
+            let rem = e.w.risk_metas(s, &acct, include, None);
+            let n = inner.ixs.len() as u64;
+            let mut ixs = vec![ix::start_flashloan(acct, sg, n + 1)];
+            ixs.extend(inner.ixs.iter().cloned());
+            ixs.push(ix::end_flashloan(acct, sg, rem));
+            Tx { ixs, signers: inner.signers.clone() }
+        };
+        let Some(variant) = (0..2).find(|v| {
+            let mut t = s0.clone();
+            process_tx(&mut t, &wrap(&s0, *v)).ok()
+        }) else {
+            *classes.entry("in_flashloan:baseline_refused".into()).or_insert(0) += 1;
+            continue;
+        };
+        *classes.entry("in_flashloan:baseline_ok".into()).or_insert(0) += 1;
+        for (pos, &b) in g.banks.iter().enumerate() {
+            for st in [BankOperationalState::Paused, BankOperationalState::ReduceOnly, BankOperationalState::KilledByBankruptcy] {
+                let mut s1 = s0.clone();
+                set_state(&mut s1, &e, b, st);
+                let mut t = s1.clone();
+                let r = process_tx(&mut t, &wrap(&s1, variant));
+                cells += 1;
+                let ex = expectation(g.name, st);
+                *classes.entry(format!("in_flashloan:{:?}:{}:{}", st, match ex { Expect::MustFail => "must_fail", Expect::MustSucceed => "must_succeed", Expect::Unspecified => "unspecified" }, if r.ok() { "ok" } else { "refused" })).or_insert(0) += 1;
+                if ex == Expect::MustFail && r.ok() {
+                    o.found.push(Found {
+                        clause: "C14.bank_state_refuses".into(),
+                        sig: format!("{}:bank{}:{:?}:in_flashloan", g.name, pos, st),
+                        detail: format!("[start_flashloan, {}, end_flashloan] committed although the instruction's bank #{} ({}) is {:?}", g.name, pos, e.w.banks[b].label, st),
+                        replay: json!({"model": "C14A1", "golden": g.name, "bank_role": pos, "state": format!("{:?}", st)}),
+                    });
+                }
+            }
+        }
+    }
     // (A2) instructions with two banks: every pair of states (incl. Operational) on the two at once
     for g in &gs {
         if g.banks.len() < 2 {
@@ -492,7 +540,7 @@ pub fn run(tier: Tier) -> Outcome {
     if !classes.keys().any(|k| k.starts_with("pause_in_force:refused")) {
         o.machinery.push("vacuity guard: the pause never refused anything".into());
     }
-    for need in ["second_entitled_signer", "bank_flavour_baseline_ok:tokenless_complete", "scenario:single:in_force:refused", "scenario:extended:in_force:refused", "scenario:second:in_force:refused", "scenario:lifted:not_in_force:ok", "scenario:cleared_by_anyone:not_in_force:ok"] {
+    for need in ["in_flashloan:baseline_ok", "in_flashloan:ReduceOnly:must_fail:refused", "second_entitled_signer", "bank_flavour_baseline_ok:tokenless_complete", "scenario:single:in_force:refused", "scenario:extended:in_force:refused", "scenario:second:in_force:refused", "scenario:lifted:not_in_force:ok", "scenario:cleared_by_anyone:not_in_force:ok"] {
         if !classes.contains_key(need) {
             o.machinery.push(format!("vacuity guard: class {need} never occurred"));
         }
@@ -507,7 +555,7 @@ pub fn run(tier: Tier) -> Outcome {
     o.coverage = json!({
         "evaluations": cells,
         "distinct_nontrivial": refused,
-        "rule": "(A) [each cell also with the bank flagged token-less-repayment allowed / completed, settings frozen, permissionless settlement, close enabled; (A3) a killed bank x those flags x every one- and two-step operational-state request of the group admin (with and without a freeze request) stays killed and refuses deposit and withdrawal; (B) also signed by every other identity for which the un-paused call succeeds] (A) every financial instruction (deposit, withdraw, withdraw-all, borrow, repay, repay-all, liquidation with asset and debt bank separately, bankruptcy, Token-2022 deposit, ...) x each of its banks x {Paused, ReduceOnly, KilledByBankruptcy} against the statement's table (refusals and the 'still works' cells), and for instructions with two banks every pair of non-operational states on both at once; (B) every golden instruction of the program x a propagated protocol pause at +1 s, +1799 s (in force: a success must not move any position or token amount of the group) and +1800 s, +1801 s with and without re-propagation (expired: same verdict as the never-paused twin at the same clock), and the same around an extended pause (paused at T, extended and propagated at T+600, in force until T+3600; probes at +601, +1800, +2400, +3599, +3600, +3601), a pause lifted by the admin and propagated (never in force afterwards), a second pause issued and propagated the second the first ran out (in force for T+1800..T+3600), and a run-out pause cleared by anyone and propagated; the thorough tier probes every scenario at both neighbours of each boundary second and far beyond; distinct_nontrivial = refused cells",
+        "rule": "(A1) every user instruction also as [start_flashloan, X, end_flashloan] of the acting account x bank x state; (A) [each cell also with the bank flagged token-less-repayment allowed / completed, settings frozen, permissionless settlement, close enabled; (A3) a killed bank x those flags x every one- and two-step operational-state request of the group admin (with and without a freeze request) stays killed and refuses deposit and withdrawal; (B) also signed by every other identity for which the un-paused call succeeds] (A) every financial instruction (deposit, withdraw, withdraw-all, borrow, repay, repay-all, liquidation with asset and debt bank separately, bankruptcy, Token-2022 deposit, ...) x each of its banks x {Paused, ReduceOnly, KilledByBankruptcy} against the statement's table (refusals and the 'still works' cells), and for instructions with two banks every pair of non-operational states on both at once; (B) every golden instruction of the program x a propagated protocol pause at +1 s, +1799 s (in force: a success must not move any position or token amount of the group) and +1800 s, +1801 s with and without re-propagation (expired: same verdict as the never-paused twin at the same clock), and the same around an extended pause (paused at T, extended and propagated at T+600, in force until T+3600; probes at +601, +1800, +2400, +3599, +3600, +3601), a pause lifted by the admin and propagated (never in force afterwards), a second pause issued and propagated the second the first ran out (in force for T+1800..T+3600), and a run-out pause cleared by anyone and propagated; the thorough tier probes every scenario at both neighbours of each boundary second and far beyond; distinct_nontrivial = refused cells",
         "golden_calls_not_exercised": not_exercised,
         "exhaustive": true,
         "outcome_classes": classes,
